@@ -159,8 +159,21 @@ func (m *Model) RunPathAPI(s *Sink, rule string) {
 				if !isC || c.Call.StaticCallee() == nil || fnFullName(c.Call.StaticCallee()) != "path/filepath.Abs" {
 					continue
 				}
-				if bo, isBo := c.Call.Args[0].(*ssa.BinOp); isBo && bo.Op == token.ADD && strings.HasSuffix(fieldPathOf(bo.Y), ".TemplateExt") {
-					if jc, isJ := bo.X.(*ssa.Call); isJ && len(jc.Call.Args) == 2 && strings.HasSuffix(fieldPathOf(jc.Call.Args[0]), ".TemplateDir") && jc.Call.Args[1] == ssa.Value(tfp.Params[0]) {
+				// the argument as a concatenation (helpers that just concatenate are looked through): it starts with the
+				// directory, contains the name, ends with the extension, and no part is conditional
+				parts := m.concatParts(c.Call.Args[0], nil, 0)
+				if len(parts) >= 3 {
+					first, last := parts[0], parts[len(parts)-1]
+					hasName, cond := false, false
+					for _, p := range parts {
+						if strings.Contains(p, "param:"+tfp.Params[0].Name()) {
+							hasName = true
+						}
+						if strings.Contains(p, "?") {
+							cond = true
+						}
+					}
+					if strings.Contains(first, ".TemplateDir") && last == ".TemplateExt" && hasName && !cond {
 						ok = true
 					}
 				}
@@ -274,10 +287,20 @@ func (m *Model) RunPathAPI(s *Sink, rule string) {
 		okFC := false
 		for _, b := range fc.Blocks {
 			if ret, isRet := b.Instrs[len(b.Instrs)-1].(*ssa.Return); isRet && len(ret.Results) == 2 {
-				if cv, isCv := ret.Results[0].(*ssa.Convert); isCv {
+				if cv, isCv := retSource(ret, 0).(*ssa.Convert); isCv {
 					if ex, isEx := cv.X.(*ssa.Extract); isEx {
-						if src, isCall := ex.Tuple.(*ssa.Call); isCall && src.Call.StaticCallee() != nil && fnFullName(src.Call.StaticCallee()) == "os.ReadFile" {
-							okFC = true
+						if src, isCall := ex.Tuple.(*ssa.Call); isCall && src.Call.StaticCallee() != nil {
+							switch fnFullName(src.Call.StaticCallee()) {
+							case "os.ReadFile", "io/ioutil.ReadFile":
+								okFC = src.Call.Args[0] == ssa.Value(fc.Params[0])
+							case "io.ReadAll", "io/ioutil.ReadAll":
+								// the whole content of the file opened from the path
+								if fx, isFx := stripIface(src.Call.Args[0]).(*ssa.Extract); isFx && fx.Index == 0 {
+									if op, isOp := fx.Tuple.(*ssa.Call); isOp && op.Call.StaticCallee() != nil && fnFullName(op.Call.StaticCallee()) == "os.Open" && op.Call.Args[0] == ssa.Value(fc.Params[0]) {
+										okFC = true
+									}
+								}
+							}
 						}
 					}
 				}
@@ -294,4 +317,83 @@ func (m *Model) RunPathAPI(s *Sink, rule string) {
 func isNilConst(v ssa.Value) bool {
 	c, ok := v.(*ssa.Const)
 	return ok && c.IsNil()
+}
+
+// concatParts flattens a string expression into the parts it concatenates: constants, field paths (".TemplateDir"),
+// parameters ("param:name"), library calls on such parts ("strings.TrimRight(.TemplateDir,/)"); module helpers that
+// return one expression are looked through with their parameters bound; anything conditional or unknown is "?".
+func (m *Model) concatParts(v ssa.Value, bind map[*ssa.Parameter][]string, d int) []string {
+	if d > 6 {
+		return []string{"?"}
+	}
+	switch x := v.(type) {
+	case *ssa.Const:
+		if s, ok := constOfValue(x); ok {
+			return []string{s}
+		}
+	case *ssa.BinOp:
+		if x.Op == token.ADD && isStringT(x.Type()) {
+			return append(m.concatParts(x.X, bind, d+1), m.concatParts(x.Y, bind, d+1)...)
+		}
+	case *ssa.Parameter:
+		if b, ok := bind[x]; ok {
+			return b
+		}
+		return []string{"param:" + x.Name()}
+	case *ssa.UnOp:
+		if p := fieldPathOf(x); p != "" {
+			if i := strings.LastIndex(p, "."); i >= 0 {
+				return []string{p[i:]}
+			}
+		}
+	case *ssa.Call:
+		sc := x.Call.StaticCallee()
+		if sc == nil {
+			break
+		}
+		if m.InModule(sc) && sc.Blocks != nil && len(sc.Blocks) == 1 && len(sc.Params) == len(x.Call.Args) {
+			if ret, ok := sc.Blocks[0].Instrs[len(sc.Blocks[0].Instrs)-1].(*ssa.Return); ok && len(ret.Results) == 1 {
+				nb := map[*ssa.Parameter][]string{}
+				for i, a := range x.Call.Args {
+					nb[sc.Params[i]] = m.concatParts(a, bind, d+1)
+				}
+				return m.concatParts(ret.Results[0], nb, d+1)
+			}
+		}
+		if !m.InModule(sc) {
+			var as []string
+			for _, a := range x.Call.Args {
+				as = append(as, strings.Join(m.concatParts(a, bind, d+1), "+"))
+			}
+			return []string{fnFullName(sc) + "(" + strings.Join(as, ",") + ")"}
+		}
+	}
+	return []string{"?"}
+}
+
+// retSource: result i of a return; when the function has deferred calls the results are spilled to locals
+// (`*r = v; rundefers; return *r`) — then the value last stored to that local in the returning block.
+func retSource(ret *ssa.Return, i int) ssa.Value {
+	v := ret.Results[i]
+	ld, ok := v.(*ssa.UnOp)
+	if !ok || ld.Op != token.MUL {
+		return v
+	}
+	al, ok := ld.X.(*ssa.Alloc)
+	if !ok {
+		return v
+	}
+	var last ssa.Value
+	for _, in := range ret.Block().Instrs {
+		if st, isSt := in.(*ssa.Store); isSt && st.Addr == ssa.Value(al) {
+			last = st.Val
+		}
+		if in == ssa.Instruction(ld) {
+			break
+		}
+	}
+	if last != nil {
+		return last
+	}
+	return v
 }
